@@ -20,5 +20,7 @@ func init() {
 			Expect: "pure.no-state", Why: "cipher state kept in a package-level variable"},
 		Mutant{Name: "c06-extra-driver-entry", Prop: "C06", File: "security/snow3g/snow3g.go", Old: "func GetKeyStream(k, iv [4]uint32, n int) []uint32 {", New: "func MoreKeyStream(s *snow3g, n int) []uint32 {\n\tks := make([]uint32, n)\n\ts.generateKeystream(n, ks)\n\treturn ks\n}\n\nfunc GetKeyStream(k, iv [4]uint32, n int) []uint32 {",
 			Expect: "drv.callers", Why: "the discarded first clock would be repeated by a second entry into generateKeystream"},
+		Mutant{Name: "c18-plmn-written-in-place", Prop: "C18", File: "uePolicyContainer/UePolicyContainer_UEPolicySectionManagementSubList.go", Old: "\tu.Mcc = &mcc\n\tu.Mnc = &mnc\n", New: "\tif u.Mcc == nil {\n\t\tu.Mcc, u.Mnc = new(int), new(int)\n\t}\n\t*u.Mcc, *u.Mnc = mcc, mnc\n",
+			Expect: "ptr.fresh-store", Why: "MCC/MNC overwritten in place: value copies of the sublist share the ints"},
 	)
 }
